@@ -167,6 +167,24 @@ def args_look_like_values(args):
     return True
 
 
+# identifiers an initialiser may contain and still be fixed before any call runs
+INIT_CONSTANT_WORDS = {"NULL", "nullptr", "true", "false", "sizeof", "static_cast", "std", "numeric_limits", "epsilon",
+                       "infinity", "max", "min", "quiet_NaN", "M_PI", "size_t", "unsigned", "signed", "int", "long",
+                       "short", "char", "double", "float", "bool", "u", "f", "L", "UL", "ULL", "LL"}
+
+
+def runtime_initialiser(init, type_toks):
+    """the initialiser of a FUNCTION-LOCAL static (tokens from its `=` / `(` / `{` on) names something that is not a
+    literal, a fundamental type, a numeric_limits constant or the declared type itself: a parameter, a local, another
+    object, a call.  Such an initialiser is evaluated by the first call that reaches the declaration — the value is
+    frozen for the process whatever later calls pass.  Conservative: anything not recognised counts as run-time."""
+    own = {t for t in type_toks if is_ident(t)}
+    for t in init:
+        if is_ident(t) and t not in INIT_CONSTANT_WORDS and t not in own:
+            return True
+    return False
+
+
 def header_kind(header, inside_function):
     """what a `{` opens, from the tokens since the previous `;` `{` `}`"""
     ts = [t for t, _ in header]
@@ -344,9 +362,14 @@ class FileScan:
                                          "*" not in quals[len(quals) - 1 - quals[::-1].index("const"):])
         kind, fn, cls = self.ctx[i]
         text = " ".join(t for t, _ in toks[stmt_start:end + 1])
+        type_toks = [t for t in pre + mid[:len(mid) - 1 - mid[::-1].index(name)]
+                     if t not in ("static", "thread_local", "inline", "public", "private", "protected", ":")]
+        init = [t for t, _ in toks[j:end]]
         return {"name": name, "file": self.rel, "line": toks[i][1], "scope": fn,
                 "cls": cls, "decl": text[:160], "mutable": not const, "tok": i, "end": end,
                 "guard": self.guards[toks[i][1] - 1], "kindscope": kind,
+                "type": " ".join(type_toks)[:120], "const": const,
+                "rtinit": bool(fn) and runtime_initialiser(init, type_toks),
                 "types": [t for t in pre + mid if is_ident(t) and t != name]}
 
     def _namespace_vars(self):
@@ -401,6 +424,8 @@ class FileScan:
             close = match_paren(stmt, j) if True else None
             if close != len(stmt) - 1 or not args_look_like_values(stmt[j + 1:close]):
                 return None               # function prototype
+            if close == j + 2 and ts[j + 1] in ts[:j - 1]:
+                return None               # `T f(T);` : a prototype whose only parameter is the (typedef'd) return type
             head = ts[:j]
         elif first == "=":
             head = ts[:j]
@@ -415,6 +440,8 @@ class FileScan:
                                          "*" not in quals[len(quals) - 1 - quals[::-1].index("const"):])
         ln = stmt[0][1]
         return {"name": name, "file": self.rel, "line": ln, "scope": "", "cls": "", "decl": " ".join(ts)[:160],
+                "type": " ".join(t for t in head[:len(head) - 1 - head[::-1].index(name)] if t != "inline")[:120],
+                "const": const, "rtinit": False,      # namespace scope: initialised at load time, before any call
                 "mutable": not const, "tok": start, "end": start + len(stmt), "guard": self.guards[ln - 1],
                 "kindscope": "namespace", "types": [t for t in head if is_ident(t) and t != name]}
 
@@ -444,7 +471,7 @@ def occurrences(scans, seq):
 _SCAN_CACHE = {}
 
 
-def scan_tree(base, overrides=None):
+def scan_tree(base, overrides=None, prefix=""):
     """FileScan of every header under `base`; `overrides` maps a relative path to replacement source text"""
     scans = {}
     for d, dirs, files in sorted(os.walk(base)):
@@ -452,11 +479,11 @@ def scan_tree(base, overrides=None):
         for f in sorted(files):
             if f.endswith((".hpp", ".h")):
                 p = os.path.join(d, f)
-                rel = os.path.relpath(p, base)
+                rel = prefix + os.path.relpath(p, base)
                 if overrides and rel in overrides:
                     scans[rel] = FileScan(rel, overrides[rel])
                     continue
-                key = (p, os.path.getmtime(p), os.path.getsize(p))
+                key = (p, rel, os.path.getmtime(p), os.path.getsize(p))
                 if key not in _SCAN_CACHE:
                     _SCAN_CACHE[key] = FileScan(rel, open(p, errors="replace").read())
                 scans[rel] = _SCAN_CACHE[key]
@@ -467,7 +494,22 @@ def scan_tree(base, overrides=None):
 
 
 def scan_repo(repo, overrides=None):
-    return scan_tree(os.path.join(repo, "include", "tapkee"), overrides)
+    """include/tapkee/** (keys relative to it), include/stichwort/** (keys `stichwort:<rel>`) and src/cli/*.hpp
+    (keys `cli:<name>`): every header the library and its command-line front end are made of"""
+    scans = scan_tree(os.path.join(repo, "include", "tapkee"), overrides)
+    sw = os.path.join(repo, "include", "stichwort")
+    if os.path.isdir(sw):
+        scans.update(scan_tree(sw, None, "stichwort:"))
+    cli = os.path.join(repo, "src", "cli")
+    if os.path.isdir(cli):
+        for f in sorted(os.listdir(cli)):
+            if f.endswith((".hpp", ".h")):
+                p = os.path.join(cli, f)
+                key = (p, "cli:" + f, os.path.getmtime(p), os.path.getsize(p))
+                if key not in _SCAN_CACHE:
+                    _SCAN_CACHE[key] = FileScan("cli:" + f, open(p, errors="replace").read())
+                scans["cli:" + f] = _SCAN_CACHE[key]
+    return scans
 
 
 def analyse(repo, overrides=None):
@@ -505,7 +547,12 @@ def analyse(repo, overrides=None):
         sc = scans[d["file"]]
         role, det = "unknown", False
         name = d["name"]
-        if not d["mutable"]:
+        if not d["mutable"] and d.get("rtinit"):
+            # `static const T x = <expression over arguments / locals>`: immutable, but WHICH value it holds is decided
+            # by the first call that gets there — a value carried from one embed call into the next
+            role = "unknown"
+            det = d["file"] in det_files
+        elif not d["mutable"]:
             role = "constant"
         elif d["scope"] == "":
             # namespace / class scope: who names it?
@@ -514,6 +561,10 @@ def analyse(repo, overrides=None):
             # only count occurrences that can denote this object (not member accesses `x.name`, not declarations of
             # other entities with the same spelling inside classes)
             uses = [(rel, i) for rel, i in uses if scans[rel].toks[i - 1][0] not in (".", "->")]
+            if d.get("cls") and d.get("kindscope") == "class":
+                # a static data member is named unqualified only inside its own class, `C::name` elsewhere
+                uses = [(rel, i) for rel, i in uses
+                        if scans[rel].ctx[i][2] == d["cls"] or scans[rel].toks[i - 1][0] == "::"]
             in_fn = [(rel, i) for rel, i in uses if scans[rel].ctx[i][0] == "function"]
             det = any(site_is_det(rel, i) for rel, i in in_fn)
             role = "initOnly" if not in_fn else "unknown"
@@ -522,7 +573,13 @@ def analyse(repo, overrides=None):
             fn = d["scope"]
             body = [i for i in range(len(sc.toks)) if sc.ctx[i][1] == fn and sc.toks[i][0] == name
                     and not (d["tok"] <= i <= d["end"])]
-            only_returned = bool(body) and all(sc.toks[i - 1][0] == "return" and sc.toks[i + 1][0] == ";" for i in body)
+            def is_return(i):
+                prev = sc.toks[i - 1][0]
+                if prev == "&":
+                    prev = sc.toks[i - 2][0]
+                return prev == "return" and sc.toks[i + 1][0] == ";"
+            d["returned"] = any(is_return(i) for i in body)
+            only_returned = bool(body) and all(is_return(i) for i in body)
             short = fn.split("::")
             seq = [short[-2], "::", short[-1]] if len(short) >= 2 else [short[-1]]
             sites = [(rel, i) for rel, i in occurrences(scans, seq)
@@ -552,10 +609,15 @@ def analyse(repo, overrides=None):
                 direct_ok = all(scans[rel].ctx[i][1].split("::")[-1] == "random_shuffle" for rel, i in sites)
                 det = any(site_is_det(rel, i) for rel, i in callers)
                 role = "randomStream" if direct_ok else "unknown"
+            elif only_returned and "TAPKEE_VERIF" in d["guard"] and fn.split("::")[-1].startswith("verif_"):
+                role = "verifHook"        # an observer slot that exists under -DTAPKEE_VERIF only
             elif only_returned:
                 role = "readOnlyLiteral"
         out.append({"name": name, "file": d["file"], "line": d["line"], "scope": d["scope"], "decl": d["decl"],
-                    "mutable": d["mutable"], "role": role, "det": bool(det and d["mutable"]), "guard": d["guard"]})
+                    "mutable": d["mutable"], "role": role, "guard": d["guard"],
+                    "det": bool(det and (d["mutable"] or d.get("rtinit"))),
+                    "type": d.get("type", ""), "const": bool(d.get("const")), "rtinit": bool(d.get("rtinit")),
+                    "returned": bool(d.get("returned")), "object": True})
 
     # ---- hidden state of the C library: rand() and friends
     accessors = {}      # function name -> (file)
@@ -599,7 +661,8 @@ def analyse(repo, overrides=None):
         hooked = bool(re.search(r"(^|&& )ifdef\s+CUSTOM_UNIFORM_RANDOM_FUNCTION", guard))
         role = "vantageChoice" if (rel in VANTAGE_FILES and hooked) else "randomStream"
         out.append({"name": "std::rand state via " + via, "file": rel, "line": ln, "scope": fn,
-                    "decl": "call of %s()" % via, "mutable": True, "role": role, "det": det, "guard": ""})
+                    "decl": "call of %s()" % via, "mutable": True, "role": role, "det": det, "guard": "",
+                    "type": "", "const": False, "rtinit": False, "returned": False, "object": False})
     out.sort(key=lambda o: (o["file"], o["line"], o["name"]))
     return out
 
@@ -608,16 +671,35 @@ def lean_str(s):
     return '"' + s.replace("\\", "\\\\").replace('"', '\\"') + '"'
 
 
+def lb(b):
+    return "true" if b else "false"
+
+
+def cls_of(o):
+    """mirror of `Statics.cls` (Model/Statics.lean)"""
+    if not o["mutable"] and o["const"] and not o["rtinit"]:
+        return "constant"
+    if o["role"] in ("loggingOnly", "verifHook") or (o["role"] == "randomStream" and o["object"]):
+        return "config"
+    return "state"
+
+
+def key_of(o):
+    """mirror of `Statics.key`"""
+    return (o["file"], o["scope"], o["name"])
+
+
 def render(table):
     lines = ["import TapkeeVerif.Model.Statics",
-             "/-! GENERATED by tools/translate_statics.py from include/tapkee — do not edit.",
+             "/-! GENERATED by tools/translate_statics.py from include/tapkee, include/stichwort, src/cli/*.hpp — do not edit.",
              "    Objects of static storage duration and uses of the C library's hidden generator state. -/",
              "namespace TapkeeVerif.Gen.Statics", "open TapkeeVerif.Statics", "",
              "def table : List Obj := ["]
     rows = []
     for o in table:
-        rows.append("  { name := %s, file := %s, line := %d, scope := %s,\n    decl := %s,\n    isMutable := %s, role := .%s, onDeterministicPath := %s }" % (
+        rows.append("  { name := %s, file := %s, line := %d, scope := %s,\n    decl := %s,\n    type := %s, isConst := %s, rtInit := %s, returned := %s, isObject := %s,\n    isMutable := %s, role := .%s, onDeterministicPath := %s }" % (
             lean_str(o["name"]), lean_str(o["file"]), o["line"], lean_str(o["scope"]), lean_str(o["decl"]),
+            lean_str(o["type"]), lb(o["const"]), lb(o["rtinit"]), lb(o["returned"]), lb(o["object"]),
             "true" if o["mutable"] else "false", o["role"], "true" if o["det"] else "false"))
     lines.append(",\n".join(rows))
     lines += ["]", "", "end TapkeeVerif.Gen.Statics", ""]
@@ -650,6 +732,7 @@ def accounted(o):
 # ---- regression snippets: hidden state the table MUST flag (an object with that name that is not accounted for) and
 # harmless declarations it must NOT flag.  Each snippet is spliced into a header of the repository in memory.
 MDS = "routines/multidimensional_scaling.hpp"
+LEM = "routines/laplacian_eigenmaps.hpp"
 VPT = "neighbors/vptree.hpp"
 FN, NS = "function", "namespace"
 SELFTEST = [
@@ -692,6 +775,20 @@ SELFTEST = [
      "distance_passes", False),
     ("function-local constant", MDS, "compute_distance_matrix",
      "    static const ScalarType half = 0.5;\n    (void)half;\n", "half", False),
+    # a const static is only a constant if its initialiser is: these freeze a value of the FIRST call for the process
+    ("function-local static const initialised from a parameter", LEM, "compute_laplacian",
+     "    static const ScalarType inv_width = 1.0 / width;\n    (void)inv_width;\n", "inv_width", True),
+    ("function-local static const initialised from a local / a call", MDS, "compute_distance_matrix",
+     "    static const IndexType first_size = end - begin;\n    (void)first_size;\n", "first_size", True),
+    ("function-local static const initialised by a call", MDS, "compute_distance_matrix",
+     "    static const int threads_at_first_call = omp_get_max_threads();\n    (void)threads_at_first_call;\n",
+     "threads_at_first_call", True),
+    ("function-local constexpr / numeric_limits constant", MDS, "compute_distance_matrix",
+     "    static const ScalarType tiny = std::numeric_limits<ScalarType>::epsilon();\n    (void)tiny;\n", "tiny", False),
+    ("singleton handed out by reference", MDS, None,
+     "struct DistanceRegistry\n{\n    DenseSymmetricMatrix last;\n};\ninline DistanceRegistry& distance_registry()\n{\n"
+     "    static DistanceRegistry the_registry;\n    return the_registry;\n}\n"
+     "inline void remember(const DenseSymmetricMatrix& m) { distance_registry().last = m; }\n\n", "the_registry", True),
 ]
 
 # used when a header no longer has the function / namespace the snippet is meant for: the snippet is then judged in
@@ -759,7 +856,9 @@ def selftest(repo):
             wrong.append("%s: scanner raised %r" % (label, ex))
             continue
         objs = [o for o in table if o["name"] == name and o["file"] == rel]
-        flagged = any(not accounted(o) for o in objs)
+        # flagged = breaks `no_hidden_state`, or is a non-constant object (every one of those has to be in the
+        # hand-kept accepted list of Props/C12.lean, which a spliced-in object never is)
+        flagged = any(not accounted(o) or cls_of(o) != "constant" for o in objs)
         if must_flag and not flagged:
             wrong.append("%s: `%s` NOT flagged (%s)" % (label, name, [(o["role"], o["mutable"], o["det"]) for o in objs]))
         if not must_flag and (flagged or not objs):
@@ -779,5 +878,5 @@ if __name__ == "__main__":
     here = os.path.dirname(os.path.dirname(os.path.abspath(__file__)))
     out = sys.argv[2] if len(sys.argv) > 2 else os.path.join(here, "lean", "TapkeeVerif", "Gen", "Statics.lean")
     for o in generate(repo, out):
-        print("%-12s %-5s det=%-5s %s:%d %s [%s] %s" % (o["role"], "mut" if o["mutable"] else "const", o["det"], o["file"],
-                                                   o["line"], o["name"], o["scope"], o["decl"][:70]))
+        print("%-8s %-12s %-5s det=%-5s rt=%-5s %s:%d %s [%s] %s" % (cls_of(o), o["role"], "mut" if o["mutable"] else "const", o["det"],
+                                                   o["rtinit"], o["file"], o["line"], o["name"], o["scope"], o["decl"][:70]))
